@@ -204,6 +204,18 @@ fn run_program<'a>(arena: &'a [String], ops: &[RopeOp], counters: &mut Counters)
           }
           (None, None) => {}
           (Some(r), None) => {
+            // a slice that is not valid UTF-8 is a `str` with invalid content:
+            // C19's subject whether or not a guarded site was involved
+            if std::str::from_utf8(&r.to_bytes()).is_err() {
+              counters.inc("rope:invalid_utf8_slices");
+              return Some(format!(
+                "INVALID-UTF8 op {}: get_byte_slice({:?}, {:?}) returned a rope whose bytes {:?} are not valid UTF-8",
+                n,
+                lo,
+                hi,
+                r.to_bytes()
+              ));
+            }
             // accepting an invalid range is only a model mismatch if it yields non-empty text
             if !r.is_empty() {
               return Some(format!("op {}: invalid range {:?}..{:?} accepted and renders {:?}", n, lo, hi, r.to_string()));
@@ -294,8 +306,15 @@ pub fn check_rope_case(case: &RopeCase) -> (Vec<Violation>, Counters) {
   match r {
     Ok(None) => {}
     Ok(Some(mismatch)) => {
-      counters.inc("rope:model_mismatch_not_judged_here");
-      let _ = mismatch;
+      if mismatch.starts_with("INVALID-UTF8") {
+        violations.push(Violation {
+          kind: "invalid_utf8".into(),
+          op_class: "rope".into(),
+          detail: mismatch,
+        });
+      } else {
+        counters.inc("rope:model_mismatch_not_judged_here");
+      }
     }
     Err(_) => {
       let msg = sched::take_last_panic().unwrap_or_default();
